@@ -167,6 +167,35 @@ def candidates(L, c, dname, f):
     return cands, False
 
 
+def run_fix(L, opts):
+    """run fix; when it stops with its own 'file ... disappeared ... please rerun the same command' (it renamed a
+    duplicate source to .unrecoverable and tripped over it), do what it says, at most 3 times; tags are accumulated"""
+    from vp import taglog
+    res = L.run("fix", *opts)
+    raw = res.tags.raw
+    first = res
+    n = 0
+    while res.rc != 0 and "rerun the same command" in res.text() and n < 3:
+        n += 1
+        res = L.run("fix", *opts)
+        raw += res.tags.raw
+    if n:
+        res.before = first.before
+        res.tags = taglog.Tags(raw)
+        res.reruns = n
+    return res
+
+
+def self_inflicted_stop(L, res):
+    """structural signature of a recorded defect: fix stopped with 'file X disappeared' although X was renamed to
+    X.unrecoverable by fix itself (the duplicate-search set built at start still lists X)"""
+    import re
+    m = re.findall(r"DANGER! file '([^']*)' disappeared", res.text())
+    if not m or res.rc == 0:
+        return False
+    return all(os.path.lexists(p + ".unrecoverable") for p in m)
+
+
 def exempt_files(c, snap):
     """recorded files that have no block with a recorded hash (all CHG) and whose on-disk identity already differs
     from the record before any damage: the user changed an unsynced file again.  A change in blocks without a
@@ -292,6 +321,12 @@ def fix_oracle(L, c, res, before, flt, where, exempt=()):
             v.append(dict(kind="content-modified-by-fix", where=where, file=rel))
     if res.signal is not None:
         v.append(dict(kind="fix-killed-by-signal-%d" % res.signal, where=where))
+    if v and self_inflicted_stop(L, res):
+        # whatever is left behind by such a stop (typically a 0-byte file created just before) is attributed to it
+        for x in v:
+            if x["kind"] in ("wrong-bytes-not-reported", "missing-not-reported"):
+                x["detail"] = x["kind"]
+                x["kind"] = "fix-stops-on-self-renamed-search-source"
     return v
 
 
@@ -321,7 +356,7 @@ def damage_job(job):
     exempt = exempt_files(c, L.snap())
     apply_damage(L, c, spec, initial_parity)
     before = L.snap()
-    res = L.run("fix", *flt)
+    res = run_fix(L, flt)
     viols = fix_oracle(L, c, res, before, flt, repr((spec, flt)), exempt)
     nrec = len(res.tags.get("status", "recovered"))
     nun = len(res.tags.get("status", "unrecoverable"))
@@ -340,6 +375,9 @@ def signature(L, c, spec, viols, after=None):
     bs = c.block_size
     for v in viols:
         key = "C05/" + v["kind"]
+        if v["kind"] == "fix-stops-on-self-renamed-search-source":
+            sigs.append(key)
+            continue
         rel = v.get("file")
         if rel and after is not None and v["kind"] in ("wrong-bytes-not-reported", "recovered-with-wrong-bytes"):
             dn, sub = rel.split("/", 1)
@@ -499,7 +537,7 @@ def replay(r):
                 spec = ("lost", [tuple(x) for x in spec[1]])
             apply_damage(L, c, tuple(spec), initial_parity)
             before = L.snap()
-            res = L.run("fix", *r["filter"])
+            res = run_fix(L, r["filter"])
             print(res.text()[-800:])
             v = fix_oracle(L, c, res, before, tuple(r["filter"]), "replay", exempt)
         for x in v:
